@@ -15,7 +15,7 @@ git -C /repo worktree remove --force "$WT"
 echo "$PID-$NAME: demo clean exit=$res_clean, demo mutated exit=$res_mut, tests with patch: $tests"
 if [ "$res_clean" = "0" ] && [ "$res_mut" != "0" ] && echo "$tests" | grep -q "977 passed"; then
   D=/verif/seeded/$PID-$NAME; mkdir -p "$D"; cp "$SRC/patch.diff" "$SRC/demo.py" "$D/"; cp "$SRC/notes.md" "$D/notes.md" 2>/dev/null
-  echo "{\"property\": \"$PID\", \"confirmed\": \"demo exit $res_clean without patch, exit $res_mut with patch; $tests\"}" > "$D/confirm.json"
+  echo "{\"id\": \"$PID-$NAME\", \"property\": \"$PID\", \"confirmed\": \"demo exit $res_clean without patch, exit $res_mut with patch; $tests\"}" > "$D/meta.json"
   echo "  -> kept in $D"
 else
   echo "  -> NOT confirmed"
